@@ -202,8 +202,10 @@ template<typename Scalar, size_t DIM>
 VectorOfEigenVector<typename RayCasting<Scalar, DIM>::CellIndexes>
 RayCasting<Scalar, DIM>::cast(const PointType & originPoint, const PointType & endPoint)
 {
+  // endPoint may refer to this caster's own origin point (cast(p, caster.getOriginPoint()))
+  const PointType end = endPoint;
   setOriginPoint(originPoint);
-  return cast(endPoint);
+  return cast(end);
 }
 
 // TODO(Jean) factoriser en utilisant const expr if
